@@ -52,7 +52,9 @@ StepFor(e) ==
 AliasSig(e) == IF e.op = "mutate" THEN "list.call_keeps_callers_list" ELSE ""
 
 Verdict(e) ==
-  IF e.op = "reset" THEN "OK"
+  \* at every reset the harness runs a fixed battery of operations (harness/c07.py battery()) and
+  \* compares the outputs with those of the battery before the previous behaviour
+  IF e.op = "reset" THEN (IF e.repeat_ok THEN "OK" ELSE "FAIL:repeated_operation_gave_another_result:")
   ELSE IF e.changed # <<>> THEN "FAIL:existing_schema_changed_behaviour:" \o AliasSig(e)
   ELSE IF e.heap_changed # <<>> THEN "FAIL:operation_mutated_a_caller_owned_value:"
   ELSE IF ~e.repeat_ok THEN "FAIL:repeated_operation_gave_another_result:"
